@@ -20,10 +20,13 @@ EXPLANATION = (
     "pool); R-no-iter-mutation (no loop iterates a self list that its body mutates, directly or "
     "through a called method: the carving loop and the removal loops iterate copies); R-key-local "
     "(inside per-feature code every access to a per-feature dict uses the current feature as key; the "
-    "carving of a feature rebinds no attribute of self; no frame-wide replace inside a per-feature loop)."
+    "carving of a feature rebinds no attribute of self; no frame-wide replace inside a per-feature loop); "
+    "R-per-feature-objects (a per-feature table filled in a loop over the features receives one object per feature: a "
+    "mutable object built once before the loop and stored under every key would be shared); R-default-formula (unknown "
+    "values are sent to the default group through a per-column map {feature: {value: str_default}}, never one pooled map)."
 )
 NOT_DECIDED = "multiprocessing's own behaviour; effect of the hash seed beyond iteration order"
-FLOORS = {"R-order-statistic": 4, "R-seq-par-agree": 3, "R-pool-keyed": 6, "R-worker-pure": 3, "R-no-iter-mutation": 3, "R-key-local": 8}
+FLOORS = {"R-order-statistic": 4, "R-seq-par-agree": 3, "R-pool-keyed": 6, "R-worker-pure": 3, "R-no-iter-mutation": 3, "R-key-local": 8, "R-per-feature-objects": 12, "R-default-formula": 2}
 
 LV = "<feature>"
 
@@ -490,7 +493,53 @@ def rule_no_multi_column_array(ctx):
            "" if not bad else f"`{short(bad[0][1], 70)}` in {bad[0][0].qualname}: the columns share one dtype after the conversion")
 
 
+def _mutable_construction(e) -> bool:
+    if isinstance(e, (ast.List, ast.Dict, ast.Set, ast.ListComp, ast.DictComp, ast.SetComp)):
+        return True
+    if isinstance(e, ast.Call) and isinstance(e.func, ast.Name) and (e.func.id in ("list", "dict", "set", "DataFrame", "Series") or e.func.id[:1].isupper()):
+        return True
+    return False
+
+
+def rule_per_feature_objects(ctx):
+    """A per-feature table (values_orders, labels_per_values ...) filled in a loop over the features
+    must receive one object per feature: a mutable object built once before the loop and stored
+    under every key is shared, so grouping / appending for one feature shows up in the others."""
+    R = "R-per-feature-objects"
+    repo = ctx.repo
+    n = 0
+    for fi in repo.all_functions():
+        if "/selectors/" in fi.module.relpath:
+            continue
+        for loop in [x for x in walk_no_nested(fi.node) if isinstance(x, ast.For) and isinstance(x.target, ast.Name)]:
+            key = loop.target.id
+            inner_stores = {x.id for s_ in loop.body for x in ast.walk(s_) if isinstance(x, ast.Name) and isinstance(x.ctx, ast.Store)}
+            stored = []  # (value expr, node)
+            for c in [x for s_ in loop.body for x in ast.walk(s_)]:
+                if isinstance(c, ast.Call) and isinstance(c.func, ast.Attribute) and c.func.attr == "update" and len(c.args) == 1 and isinstance(c.args[0], ast.Dict):
+                    for k, v in zip(c.args[0].keys, c.args[0].values):
+                        if isinstance(k, ast.Name) and k.id == key:
+                            stored.append((v, c))
+                elif isinstance(c, ast.Assign) and len(c.targets) == 1 and isinstance(c.targets[0], ast.Subscript) and isinstance(c.targets[0].slice, ast.Name) and c.targets[0].slice.id == key:
+                    stored.append((c.value, c))
+            for v, node in stored:
+                n += 1
+                shared = None
+                if isinstance(v, ast.Name) and v.id not in inner_stores and v.id not in fi.params:
+                    defs = [a.value for a in walk_no_nested(fi.node) if isinstance(a, ast.Assign) and any(isinstance(t, ast.Name) and t.id == v.id for t in a.targets)]
+                    if defs and all(_mutable_construction(d) for d in defs):
+                        shared = defs[0]
+                ctx.ob(R, construct(fi, f"`{short(node)}`: one object per `{key}`"), shared is None, loc(fi, node),
+                       "" if shared is None else f"`{v.id} = {short(shared)}` is built once, outside the loop over `{unparse(loop.iter)}`, and stored under every key: the features share one mutable object")
+    if n == 0:
+        raise AnalysisError("no per-feature store in a loop was found")
+
+
 def check(ctx):
+    rule_per_feature_objects(ctx)
+    from . import c05
+
+    c05.rule_default_formula(ctx)  # the replacement of unknown values is a per-column map
     rule_no_multi_column_array(ctx)
     rule_no_cross_feature_condition(ctx)
     from . import quant as _q
@@ -505,6 +554,7 @@ def check(ctx):
 
 
 MUTANTS = [
+    M("every feature without a provided order receives the same GroupedList", [("AutoCarver/discretizers/utils/qualitative_discretizers.py", "        # adding known_values to each feature's order\n        for feature in self.features:\n            # checking for already known values of the feature\n            if feature in self.values_orders:\n                order = self.values_orders[feature]\n            # no known values for the feature\n            else:\n                order = GroupedList([])\n", "        empty_order = GroupedList([])\n        # adding known_values to each feature's order\n        for feature in self.features:\n            # checking for already known values of the feature\n            if feature in self.values_orders:\n                order = self.values_orders[feature]\n            # no known values for the feature\n            else:\n                order = empty_order\n                self.values_orders.update({feature: empty_order})\n")], "R-per-feature-objects", "one object per"),
     M("Pool branch passes another quantile count", [(F_QUAN, "                        q=self.q,\n", "                        q=self.q + 1,\n")], "R-seq-par-agree", "ContinuousDiscretizer.fit", quick=True),
     M("Pool branch fits on the caller's frame, sequential branch on the validated copy", [(F_QUAN, "                        X=x_copy[self.quantitative_features],\n", "                        X=X[self.quantitative_features],\n")], "R-seq-par-agree", "ContinuousDiscretizer.fit"),
     M("Pool branch transforms with the raw orders argument swapped", [(F_BASE, "                            feature,\n                            X[feature],\n                            self.values_orders,\n                            self.str_nan,\n                            self.labels_per_values,\n                            x_len,\n                        ),\n                    )", "                            feature,\n                            X[feature],\n                            self.values_orders,\n                            self.str_default,\n                            self.labels_per_values,\n                            x_len,\n                        ),\n                    )")], "R-seq-par-agree", "_transform_quantitative"),
